@@ -141,6 +141,7 @@ pub fn run_case(desc: &str, ops: &[String]) {
     println!("t {}", desc);
     for op in ops {
         let w: Vec<&str> = op.split_whitespace().collect();
+        println!("try {}", op); // a call that never returns (or kills the process) is attributed to this op
         match quiet(|| exec(&mut tree, &w)) {
             Ok(Some(r)) => {
                 println!("o {} -> {}", op, r);
@@ -423,6 +424,12 @@ fn getter_cases(rng: &mut Rng, thorough: bool) {
             run_case(&format!("seg 2 {} {}", hex(&b[..k]), hex(&b[k..])), &ops[..1]);
             run_case(&format!("take {} slice {}", j, hex(&rng.bytes(size + 2))), &ops[..1]);
             run_case(&format!("chain bytes {} cursor {} 1", hex(&b[..k]), hex(&[&[0u8][..], &b[k..]].concat())), &ops[..1]);
+        }
+        // a Cursor positioned at and beyond the end of its data (set_position is not clamped): nothing remains
+        let d = rng.bytes(3);
+        for pos in [3usize, 4, 9] {
+            run_case(&format!("cursor {} {}", hex(&d), pos), &ops[..1]);
+            run_case(&format!("chain slice - cursor {} {}", hex(&d), pos), &ops[..1]);
         }
     }
 }
